@@ -559,7 +559,7 @@ fn evaluate_inner(sc: &Scenario, files: &BTreeMap<String, String>, cov: &mut Cov
                                             if e == "lua" || e == "luau" {
                                                 let noext = f[..f.len() - e.len() - 1].to_string();
                                                 if let Some(n) = file_name(&noext) {
-                                                    if n == target.module_folder_name() || n == "init" {
+                                                    if n == target.module_folder_name() {
                                                         v.push(parent(&noext));
                                                     }
                                                 }
@@ -1061,7 +1061,7 @@ fn known_triggers(sc: &Scenario, masks: &[u64], convert: bool) -> Vec<&'static s
                 if e == "lua" || e == "luau" {
                     let noext = f[..f.len() - e.len() - 1].to_string();
                     if let Some(n) = file_name(&noext) {
-                        if n == target.module_folder_name() || n == "init" {
+                        if n == target.module_folder_name() {
                             shorts.push(parent(&noext));
                         }
                     }
